@@ -232,8 +232,92 @@ def systematic_pairs(yarl, be, root, seed, n_pairs, outdir, stride):
     print(json.dumps({"executions": rd}))
 
 
+MODEL_STR = {"s1": "http://u:p@bücher.example:80/a%20b/../c?x=1#f", "s2": "https://[2001:DB8::1]:8443/p/q.tar.gz?a=1&b=2"}
+
+
+def model_op(yarl, op, tagq):
+    """a YarlThreads program step bound to the real API"""
+    k = op[0]
+    if k == "ctor":
+        return ("ctor", MODEL_STR[op[1]] + "&" + tagq)
+    if k == "get":          # p: a pure accessor; q: one that goes through the re-bindable module-level host cache
+        return ("read", MODEL_STR[op[1]] + "&" + tagq, ["path", "parts"] if op[2] == "p" else ["host", "authority"])
+    if k == "quote":        # the compiled quoter's static buffer: a component whose quoted form is well above 8 KiB
+        return ("bigquote", op[1], 2800, "fragment")
+    if k == "clear":
+        return ("clear",)
+    return ("configure", 1)
+
+
+class CallSched(Sched):
+    """YarlThreads' interleaving granularity on the real code: a yield point at every CALL and RETURN of a function defined in
+    yarl/*.py (cache lookups, computes and stores happen between them); the thread to run next is read from the schedule TLC
+    generated."""
+
+    def tracer(self, tid):
+        def local(frame, event, arg):
+            if event == "return":
+                self.yield_point(tid)
+            return local
+
+        def noop(frame, event, arg):
+            return noop
+
+        def glob(frame, event, arg):
+            fn = frame.f_code.co_filename
+            if fn.startswith(self.root) and fn.endswith(".py"):
+                self.yield_point(tid)
+                return local
+            if fn.endswith(".pyx"):
+                return noop
+            return None
+        return glob
+
+
+def model_schedules(yarl, be, root, src, outdir):
+    """mode "model": behaviours of YarlThreads.tla generated by TLC (-simulate): the thread programs of the initial state are
+    bound to the real API and the model's sequence of thread steps drives the baton scheduler."""
+    allev, written = [], 0
+    for bi, beh in enumerate(json.load(open(src))):
+        tagq = f"m{bi}"
+        progs = [[model_op(yarl, op, tagq) for op in p] for p in beh["progs"]]
+        events = []
+        clear_all_lru(yarl)
+        yarl.cache_configure()
+        for t in range(len(progs)):
+            run_prog(yarl, [op for op in progs[t] if op[0] not in ("clear", "configure")], t, "seq", events)
+        clear_all_lru(yarl)
+        yarl.cache_configure()
+        per = [[] for _ in progs]
+        # each model step of thread t = "run t to its next call/return boundary"; repeat each a few times so that the real
+        # thread (which has more boundaries than the model has steps) makes comparable progress
+        choices = [t - 1 for t in beh["schedule"] for _ in range(beh.get("stretch", 3))]
+        sch = CallSched(choices + [0] * 100000, root)
+        sch.run([lambda t=t: run_prog(yarl, progs[t], t, "model", per[t]) for t in range(len(progs))])
+        for p in per:
+            events += p
+        events.append({"kind": "schedule", "facts": [], "model_steps": len(beh["schedule"]), "yields": sch.yields})
+        for i, ev in enumerate(events):
+            ev["id"] = f"{be}.model.{bi}.{i}"
+        allev += events
+        if len(allev) > 5000:
+            with open(f"{outdir}/thr-model-{written}.json", "w") as f:
+                json.dump(allev, f, separators=(",", ":"))
+            allev, written = [], written + 1
+    if allev:
+        with open(f"{outdir}/thr-model-{written}.json", "w") as f:
+            json.dump(allev, f, separators=(",", ":"))
+    yarl.cache_configure()
+    print(json.dumps({"behaviours": bi + 1}))
+
+
 def main():
     outdir, seed, mode, n = sys.argv[1], int(sys.argv[2]), sys.argv[3], int(sys.argv[4])
+    if mode == "model":
+        import yarl
+        be = "py" if os.environ.get("YARL_NO_EXTENSIONS") else "c"
+        model_schedules(yarl, be, os.path.dirname(yarl.__file__), os.environ["VERIF_MODEL_SCHEDULES"], outdir)
+        return
     if mode == "sys1":
         import yarl
         be = "py" if os.environ.get("YARL_NO_EXTENSIONS") else "c"
